@@ -107,6 +107,14 @@ def main():
                 evs.append(ev_update(ts[k], sample_at(w, k)))
         else:
             evs = [ev_parse(), ev_evaluate(ts, w)]
+            if rng.random() < 0.3:
+                # the same object evaluates a second data set (the same, or another time column): the counter is per data set
+                ts2 = list(ts)
+                if rng.random() < 0.6:
+                    ts2 = [ts[0]]
+                    for _ in range(N - 1):
+                        ts2.append(ts2[-1] + rng.choice(classes))
+                evs.append(ev_evaluate(ts2, gen_trace(rng, ["x"], N, S)))
         c = case([o], evs)
         if o.get("skip_ast"):
             c["skip"] = ["parse.ast"]
